@@ -69,6 +69,19 @@ Theorem C12_roundtrip_unprivileged :
 Proof. exact roundtrip_unprivileged. Qed.
 Print Assumptions C12_roundtrip_unprivileged.
 
+(* The state of the directory when the extraction stops ([extract_partial]: the entries before
+   the failing one, directories still with their creation mode) belongs to the same run as the
+   verdict: same error, and on success the same file system. *)
+Theorem C12_extract_partial_spec :
+  forall priv pre umask preserve es,
+    extract_p priv pre umask preserve es =
+    match extract_partial priv pre umask preserve es with
+    | (f, None) => Ok f
+    | (_, Some x) => Err x
+    end.
+Proof. exact extract_partial_spec. Qed.
+Print Assumptions C12_extract_partial_spec.
+
 (* The code before restoreDirModes (directories created with their recorded mode): the owner
    cannot fill a 0555 directory (EACCES), with and without PreservePermissions; root can; the
    current code can.  Finding "nonroot-permission-denied", fixed in the repository. *)
@@ -189,6 +202,35 @@ Section Codec.
       unpack digest H digest_eqb dec gunz umask preserve d blob = Err XDigest.
   Proof. exact (wrong_blob_rejected digest H digest_eqb dec gunz digest_eqb_spec). Qed.
 
+  (* What Push leaves in the directory.  A successful Push leaves what it returns; with a wrong
+     recorded tar digest Push fails -- and the complete tree of the archive is on disk
+     nevertheless (the digest is compared after the extraction): "verified on unpack" does not
+     protect the working directory; a blob that is not the descriptor's is not extracted at all. *)
+  Theorem C12_residue_of_success :
+    forall umask preserve d blob f,
+      unpack digest H digest_eqb dec gunz umask preserve d blob = Ok f ->
+      unpack_residue digest H digest_eqb dec gunz umask preserve d blob = f.
+  Proof. exact (residue_of_success digest H digest_eqb dec gunz). Qed.
+
+  Theorem C12_wrong_checksum_residue :
+    forall pre umask preserve repro T c,
+      (preserve = false -> umask <= 511) ->
+      is_dir T = true -> wf_treeb T = true -> modes_okb T = true -> benign_tree pre T = true ->
+      c <> H (enc (tar_entries pre repro T)) ->
+      let d0 := dir_descriptor digest H enc gz pre repro T in
+      let d := mkDesc digest (d_digest digest d0) (d_size digest d0) pre true (Some c) in
+      let blob := dir_blob enc gz pre repro T in
+      unpack digest H digest_eqb dec gunz umask preserve d blob = Err XDigest /\
+      forall p, fs_lookup (unpack_residue digest H digest_eqb dec gunz umask preserve d blob) p
+                = expected umask preserve T p.
+  Proof. exact (wrong_checksum_residue digest H digest_eqb enc dec gz gunz digest_eqb_spec dec_enc gunz_gz). Qed.
+
+  Theorem C12_wrong_blob_residue :
+    forall umask preserve d blob,
+      H blob <> d_digest digest d \/ N.of_nat (length blob) <> d_size digest d ->
+      unpack_residue digest H digest_eqb dec gunz umask preserve d blob = fs_init umask.
+  Proof. exact (wrong_blob_residue digest H digest_eqb dec gunz digest_eqb_spec). Qed.
+
   (* a plain file: Add -> Push writes exactly the bytes (mode 0666 minus umask: a blob
      descriptor carries no mode); whatever Push accepts has the descriptor's digest and size *)
   Theorem C12_file_roundtrip :
@@ -217,6 +259,9 @@ Section Codec.
 End Codec.
 Print Assumptions C12_descriptor.
 Print Assumptions C12_unpack_roundtrip.
+Print Assumptions C12_residue_of_success.
+Print Assumptions C12_wrong_checksum_residue.
+Print Assumptions C12_wrong_blob_residue.
 Print Assumptions C12_skipunpack_stores_blob.
 Print Assumptions C12_wrong_checksum_rejected.
 Print Assumptions C12_wrong_blob_rejected.
